@@ -1147,6 +1147,12 @@ func (d *drv) stepC08() {
 				d.c08op()
 			}
 			d.readAll()
+			// damage done to shared state during the failures (caches, pools) shows in later reads of this same
+			// instance, before the reopen below replaces it
+			for i := 0; i < 4+d.rng.Intn(6); i++ {
+				d.c08op()
+			}
+			d.readAll()
 			if d.tx != nil {
 				d.doTxEnd(false)
 			}
